@@ -40,6 +40,10 @@ pub enum TidRef {
     /// the next request would get (an implementation that registers a transaction for a request
     /// it refuses would apply an answer to it)
     Next(u8),
+    /// an outstanding id (by index) plus / minus a multiple of 2^32: a different number, hence an
+    /// unknown transaction, which a truncating conversion to a 32-bit key would alias to it.
+    /// k: 0 => +2^32, 1 => +2^33, 2 => -2^32 (negative)
+    Aliased(u16, u8),
 }
 
 #[derive(Clone, Debug, Serialize, Deserialize, PartialEq)]
@@ -307,6 +311,11 @@ fn tid_value(model: &Model, r: &TidRef) -> (f64, &'static str) {
             (*ids[((*i as usize) * ids.len()) >> 16] as f64, "outstanding")
         }
         TidRef::Answered(i) if !model.answered.is_empty() => (model.answered[((*i as usize) * model.answered.len()) >> 16] as f64, "answered"),
+        TidRef::Aliased(i, k) if !model.outstanding.is_empty() => {
+            let ids: Vec<&u32> = model.outstanding.keys().collect();
+            let base = *ids[((*i as usize) * ids.len()) >> 16] as f64;
+            (base + [4_294_967_296.0, 8_589_934_592.0, -4_294_967_296.0][*k as usize % 3], "unknown")
+        }
         TidRef::Next(k) => ((model.seen_tids.iter().next_back().copied().unwrap_or(0) + 1 + (*k as u32 % 3)) as f64, "unknown"),
         TidRef::Special(k) => match k % 5 {
             0 => (0.0, "unknown"),
@@ -320,7 +329,7 @@ fn tid_value(model: &Model, r: &TidRef) -> (f64, &'static str) {
 }
 
 pub fn eval(case: &Case) -> Verdict {
-    eval_with(case, &Clock::default(), &mut Vec::new())
+    eval_with(case, &crate::props::c09::own_clock(case.ops.len()), &mut Vec::new())
 }
 
 /// Runs and judges a history; `clock` ages the session, `sink` receives every packet returned.
@@ -400,7 +409,7 @@ fn eval_inner(case: &Case, clock: &Clock, ex: &mut Exec, age: &mut u64) -> Verdi
         // with no active stream, 'the active stream' means the one that was active before the stop
         let active_or = |m: &Model| m.active.or(m.last_active).unwrap_or([5, 0, 1][idx % 3]);
         let concrete = match op {
-            COp::RequestConnection { app } => Concrete::RequestConnection(["live", "app/inst", "x"][*app as usize % 3].to_string()),
+            COp::RequestConnection { app } => Concrete::RequestConnection(["live", "app/inst", "\u{fc}n\u{ef}/\u{30e9}\u{30a4}\u{30d6}"][*app as usize % 3].to_string()),
             COp::RequestPlayback { key } => Concrete::RequestPlayback(key_str(*key % 3)),
             COp::RequestPublishing { key, kind } => Concrete::RequestPublishing(key_str(*key % 3), *kind),
             COp::StopPlayback => Concrete::StopPlayback,
@@ -500,7 +509,7 @@ fn eval_inner(case: &Case, clock: &Clock, ex: &mut Exec, age: &mut u64) -> Verdi
         }
         match op {
             COp::RequestConnection { app } => {
-                let want_app = ["live", "app/inst", "x"][*app as usize % 3];
+                let want_app = ["live", "app/inst", "\u{fc}n\u{ef}/\u{30e9}\u{30a4}\u{30d6}"][*app as usize % 3];
                 let cmds = commands(&o, "connect");
                 if state_known && model.st != St::Disconnected {
                     refused_by_state = true;
@@ -817,7 +826,7 @@ fn eval_inner(case: &Case, clock: &Clock, ex: &mut Exec, age: &mut u64) -> Verdi
 // generators
 
 fn tid_ref() -> BoxedStrategy<TidRef> {
-    prop_oneof![7 => any::<u16>().prop_map(TidRef::Outstanding), 2 => any::<u16>().prop_map(TidRef::Answered), 2 => (0u8..5).prop_map(TidRef::Special), 2 => (0u8..3).prop_map(TidRef::Next)].boxed()
+    prop_oneof![7 => any::<u16>().prop_map(TidRef::Outstanding), 2 => any::<u16>().prop_map(TidRef::Answered), 2 => (0u8..5).prop_map(TidRef::Special), 2 => (0u8..3).prop_map(TidRef::Next), 1 => (any::<u16>(), 0u8..3).prop_map(|(i, k)| TidRef::Aliased(i, k))].boxed()
 }
 
 pub fn cop() -> BoxedStrategy<COp> {
